@@ -278,6 +278,9 @@ pub struct C03;
 
 const ALLOWED_TRAPS: &[&str] = &["divide by zero", "integer overflow", "remainder by zero", "division by zero", "divide result unrepresentable"];
 
+/// memory exhaustion is the heap's analogue of the permitted call-stack exhaustion
+const RESOURCE: &[&str] = &["requested new array is too large", "Invalid string length", "Invalid array length", "out of memory", "allocation failed"];
+
 impl Prop for C03 {
   fn id(&self) -> &'static str {
     "C03"
@@ -295,6 +298,11 @@ impl Prop for C03 {
     }
   }
   fn generate(&self, t: &mut Tape, tier: Tier) -> Value {
+    if t.bool(1, 2) {
+      if let Some(v) = gen_repo_mutant(t) {
+        return v;
+      }
+    }
     gen_g1("C03", t, tier, |_| {})
   }
   fn fixed_cases(&self, _tier: Tier) -> Vec<Value> {
@@ -308,6 +316,9 @@ impl Prop for C03 {
     let is_repo = feats.iter().any(|f| f == "repository-tests");
     let is_mutant = feats.iter().any(|f| f == "mutant");
     out.label(if is_mutant { "origin:mutant" } else if is_repo { "origin:repository" } else { "origin:G1" });
+    if is_mutant {
+      out.label(format!("mutation:{}", art["mutation"].as_str().unwrap_or("?")));
+    }
     let reference = reference_run(&mods, &entry, if is_repo { 400_000_000 } else { 300_000 });
     out.sample = Some(sample(art, &reference.as_ref().map(|r| end_str(&r.end)).unwrap_or("n/a".into())));
     if !is_mutant && !is_repo && matches!(reference.as_ref().map(|r| &r.end), Some(End::Budget)) {
@@ -315,7 +326,7 @@ impl Prop for C03 {
       return Outcome::discarded("reference-budget");
     }
     match run_pipeline(&mods, &entry, true) {
-      Pipeline::Rejected(_) => Outcome::discarded("rejected-by-checker"),
+      Pipeline::Rejected(_) => Outcome::discarded(if is_mutant { "mutant-rejected-by-checker" } else { "rejected-by-checker" }),
       Pipeline::NoNode => Outcome::discarded("INFRA:node-unavailable"),
       Pipeline::CompilePanic(e) => {
         out.fail(format!("compile-panic/{}/{}", e.0, msg_class(&e.1)), format!("the checker accepted the program but compile_sources panicked: {}\n{}", e.1, describe(&mods)));
@@ -341,12 +352,15 @@ impl Prop for C03 {
           Some(r) if !matches!(r.end, End::Budget | End::Stuck(_) | End::Excluded(_)) && !is_mutant => matches!(r.end, End::VecBounds),
           _ => mods.iter().any(|(_, t)| t.contains(".pop(") || t.contains(".get(") || t.contains(".set(")),
         };
+        // Str.toInt on a non-numeral is implementation-defined (spec 10.1): any ending is permitted then
+        let toint_undefined = matches!(reference.as_ref().map(|r| &r.end), Some(End::Excluded(r)) if r.starts_with("toInt"));
         match w.end.as_str() {
           "ok" | "panic" | "stack" => {}
+          _ if toint_undefined => out.label("wasm:end-after-undefined-toInt"),
           "timeout" => out.label("wasm:timeout(inconclusive)"),
           "trap" => {
             let m = w.message.as_str();
-            let allowed = ALLOWED_TRAPS.iter().any(|a| m.contains(a)) || (m.contains("unreachable") && vec_cause);
+            let allowed = ALLOWED_TRAPS.iter().any(|a| m.contains(a)) || (m.contains("unreachable") && vec_cause) || RESOURCE.iter().any(|a| m.contains(a));
             if !allowed {
               out.fail(format!("engine-fault/wasm/{}", trap_class(w)), format!("accepted program ends in an engine-level fault: {}\nreference end: {}\n{}", exec_str(w), reference.as_ref().map(|r| end_str(&r.end)).unwrap_or_default(), describe(&mods)));
             }
@@ -360,10 +374,108 @@ impl Prop for C03 {
         match t.end.as_str() {
           "ok" | "panic" | "stack" | "syntax-error" => {}
           "timeout" => out.label("ts:timeout(inconclusive)"),
+          _ if RESOURCE.iter().any(|a| t.message.contains(a)) => out.label("ts:resource-exhaustion"),
           other => out.fail(format!("bad-end/ts/{other}/{}", trap_class(t)), format!("unexpected end of the TypeScript run: {}\n{}", exec_str(t), describe(&mods))),
         }
         out
       }
     }
   }
+}
+
+// ----------------------------------------------------------------------- accepted mutants
+
+use crate::model::toks::{Kind, tokenize};
+
+fn test_modules() -> &'static Vec<(Vec<String>, String)> {
+  static M: std::sync::OnceLock<Vec<(Vec<String>, String)>> = std::sync::OnceLock::new();
+  M.get_or_init(crate::model::front::repo_test_modules)
+}
+
+/// tests.* modules reachable from `root` through imports
+fn needed_test_modules(root: &str) -> Vec<(Vec<String>, String)> {
+  let all = test_modules();
+  let mut need = vec![root.to_string()];
+  let mut i = 0;
+  while i < need.len() {
+    if let Some((_, text)) = all.iter().find(|(n, _)| n.join(".") == need[i]) {
+      for part in text.split("from ").skip(1) {
+        let path: String = part.chars().take_while(|c| c.is_ascii_alphanumeric() || *c == '.').collect();
+        let path = path.trim_end_matches('.').to_string();
+        if path.starts_with("tests.") && !need.contains(&path) {
+          need.push(path);
+        }
+      }
+    }
+    i += 1;
+  }
+  all.iter().filter(|(n, _)| need.contains(&n.join("."))).cloned().collect()
+}
+
+/// one semantic token-level edit of a repository test module; the checker decides whether it is accepted
+fn gen_repo_mutant(t: &mut Tape) -> Option<Value> {
+  let all = test_modules();
+  // modules exposing `class X { ... function run(): unit`
+  let hosts: Vec<&(Vec<String>, String)> = all.iter().filter(|(n, text)| text.contains("function run(): unit") && text.contains(&format!("class {}", n[1])) && n[1] != "AllTests" && n[1] != "Benchmark").collect();
+  if hosts.is_empty() {
+    return None;
+  }
+  let (name, text) = hosts[t.choose(hosts.len())];
+  let toks = tokenize(text);
+  let body_start = toks.iter().position(|k| k.kind == Kind::Keyword && k.text == "class")?;
+  let idx: Vec<usize> = (body_start..toks.len()).filter(|i| !toks[*i].is_comment()).collect();
+  let mut text2 = text.clone();
+  let mut op = "";
+  let lowers: Vec<&str> = toks.iter().filter(|k| k.kind == Kind::Lower).map(|k| k.text.as_str()).collect();
+  for _attempt in 0..8 {
+    let i = idx[t.choose(idx.len())];
+    let k = &toks[i];
+    let (s, e) = (k.off, k.off + k.text.len());
+    let rep: Option<(String, &str)> = match k.kind {
+      Kind::Int => Some(match t.choose(4) {
+        0 => ("\"mut\"".to_string(), "int->str"),
+        1 => ("true".to_string(), "int->bool"),
+        2 => ("0".to_string(), "int->0"),
+        _ => ("2147483647".to_string(), "int->max"),
+      }),
+      Kind::Str => Some(match t.choose(3) {
+        0 => ("7".to_string(), "str->int"),
+        1 => ("\"\"".to_string(), "str->empty"),
+        _ => ("false".to_string(), "str->bool"),
+      }),
+      Kind::Keyword if k.text == "true" => Some(("false".into(), "true->false")),
+      Kind::Keyword if k.text == "false" => Some(("true".into(), "false->true")),
+      Kind::Lower if !lowers.is_empty() => Some((lowers[t.choose(lowers.len())].to_string(), "id->id")),
+      Kind::Op => match k.text.as_str() {
+        "+" => Some(("-".into(), "op")),
+        "-" => Some(("+".into(), "op")),
+        "*" => Some(("/".into(), "op")),
+        "<" => Some(("<=".into(), "op")),
+        ">" => Some((">=".into(), "op")),
+        "==" => Some(("!=".into(), "op")),
+        "&&" => Some(("||".into(), "op")),
+        "||" => Some(("&&".into(), "op")),
+        "::" => Some(("+".into(), "op-kind")),
+        _ => None,
+      },
+      _ => None,
+    };
+    if let Some((r, o)) = rep {
+      if r != k.text && text[s..e] == k.text {
+        text2.replace_range(s..e, &r);
+        op = o;
+        break;
+      }
+    }
+  }
+  if op.is_empty() {
+    return None;
+  }
+  let root = name.join(".");
+  let mut mods: Mods = needed_test_modules(&root).into_iter().map(|(n, tx)| if n == *name { (n, text2.clone()) } else { (n, tx) }).collect();
+  mods.push((vec!["MutantMain".to_string()], format!("import {{ {} }} from {};\n\nclass Main {{\n  function main(): unit = {}.run()\n}}\n", name[1], root, name[1])));
+  let mut art = art_of(&mods, &["MutantMain".to_string()], &["mutant"]);
+  art["origin"] = json!(root);
+  art["mutation"] = json!(op);
+  Some(art)
 }
